@@ -227,22 +227,25 @@ func runZipFiles(c *core.Case, fsl []*mzFile) zipRun {
 	}
 	// the same files under a module path with upper-case letters, a major-version suffix and a pre-release version:
 	// the archive must carry that module's prefix and pass its check
-	{
-		mod2 := module.Version{Path: "example.com/Azure/Mixed/v2", Version: "v2.1.0-pre.1"}
+	for _, mod2 := range []module.Version{
+		{Path: "example.com/Azure/Mixed/v2", Version: "v2.1.0-pre.1"},
+		{Path: "example.com/m", Version: "v2.0.0+incompatible"},
+		{Path: "gopkg.in/yaml.v3", Version: "v3.0.1"},
+	} {
 		var b2 bytes.Buffer
 		if err := mzip.Create(&b2, mod2, files); err != nil {
 			add("c05:module-variant", "Create succeeds for %v but fails for %v: %v", zipMod, mod2, err)
-		} else {
-			z2 := filepath.Join(dir, "m2.zip")
-			os.WriteFile(z2, b2.Bytes(), 0644)
-			cf2, err2 := mzip.CheckZip(mod2, z2)
-			var want2 []string
-			for _, v := range gotV {
-				want2 = append(want2, mod2.Path+"@"+mod2.Version+"/"+v)
-			}
-			if err2 != nil || len(cf2.Invalid) > 0 || !core.Eq(nzs(cf2.Valid), nzs(want2)) {
-				add("c05:module-variant", "archive created for %v does not pass CheckZip with exactly the valid files: err %v invalid %q valid %q", mod2, err2, errPaths(cf2.Invalid), cf2.Valid)
-			}
+			continue
+		}
+		z2 := filepath.Join(dir, "m2.zip")
+		os.WriteFile(z2, b2.Bytes(), 0644)
+		cf2, err2 := mzip.CheckZip(mod2, z2)
+		var want2 []string
+		for _, v := range gotV {
+			want2 = append(want2, mod2.Path+"@"+mod2.Version+"/"+v)
+		}
+		if err2 != nil || len(cf2.Invalid) > 0 || !core.Eq(nzs(cf2.Valid), nzs(want2)) {
+			add("c05:module-variant", "archive created for %v does not pass CheckZip with exactly the valid files: err %v invalid %q valid %q", mod2, err2, errPaths(cf2.Invalid), cf2.Valid)
 		}
 	}
 	var wantNames []string
